@@ -218,7 +218,7 @@ def run(cid, tier, seed):
         print("VIOLATION property=%s replay=%s" % (cid, path))
         print("  signature=%s%s" % (sig, verdict))
         print("  root=%r history=%r op=%r" % (rec["root"], rec["history"], rec["op"]))
-        print("  %s" % f["detail"][:600])
+        print("  %s" % f["detail"][:600].replace("\n", " | "))
         n_viol += 1
     if len(by_sig) > max_report:
         print("  ... %d further failing signatures not listed" % (len(by_sig) - max_report))
